@@ -373,6 +373,9 @@ func runRendezvous(cfg *hx.RunCfg) error {
 	cfg.St["cases"] = ran
 	cfg.St["distinct_nontrivial"] = ran
 	cfg.St["distribution"] = dist
+	if samples == nil {
+		samples = []map[string]string{}
+	}
 	cfg.St["samples"] = samples
 	cfg.St["rows_walked"] = len(rows)
 	cfg.St["failed_attempts"] = retried
